@@ -428,6 +428,7 @@ func genC14Router(rng *Rng, sc *Scenario) {
 		FallbackOpts: true, NoRootGroups: true,
 	})
 	sc.Options.StrictSlash = false
+	sc.Options.EncodedPath = false // (the key is then built from the escaped path: normalisation is C11's business)
 	n := rng.Range(4, 24)
 	var cl Client
 	var prev []Req
@@ -459,6 +460,8 @@ func genC14RouterConc(rng *Rng, sc *Scenario) {
 		FallbackOpts: true, NoRootGroups: true,
 	})
 	sc.Options.StrictSlash = false
+	sc.Options.EncodedPath = false
+	sc.Options.Capacity = 1000 // nothing may be evicted here: "present after the request" must hold with other requests in flight
 	n := rng.Range(2, 3)
 	total := 0
 	var prev []Req
@@ -519,7 +522,7 @@ func c14RouterClient(sc *Scenario, recs []*ReqRec, nocache *World, concurrent bo
 			continue
 		}
 		out.Nontrivial = true
-		keys := strings.Split(rec.CacheKeys, ",")
+		keys := strings.Split(rec.CacheKeys, "\x00")
 		want := rec.Method + rec.Path
 		alt := want
 		if rec.Method == "HEAD" {
@@ -531,7 +534,7 @@ func c14RouterClient(sc *Scenario, recs []*ReqRec, nocache *World, concurrent bo
 		}
 		// with other requests in flight (and a cache that never evicts) the entry must be present, though not necessarily most recent
 		if (concurrent && !present) || (!concurrent && (rec.CacheKeys == "" || (keys[0] != want && keys[0] != alt))) {
-			fail(rec, "router-key", "resolved to the dynamic route %s, but afterwards the most recent cache key is not %q; keys from most to least recent: [%s]", route.Path(), want, rec.CacheKeys)
+			fail(rec, "router-key", "resolved to the dynamic route %s, but afterwards the most recent cache key is not %q; keys from most to least recent: [%s]", route.Path(), want, strings.ReplaceAll(rec.CacheKeys, "\x00", " | "))
 			break
 		}
 		if i+1 < len(recs) && recs[i+1].Method == rec.Method && recs[i+1].Path == rec.Path {
@@ -545,7 +548,57 @@ func c14RouterClient(sc *Scenario, recs []*ReqRec, nocache *World, concurrent bo
 	}
 }
 
+// ---- capacity boundaries ----
+//
+// The capacity option is a uint16: fill caches of 255, 256 and 65535 entries
+// past their capacity with distinct keys. No model of the whole history is
+// needed: the bound, the survivor set and the victim order are checked directly.
+func genC14Huge(rng *Rng, sc *Scenario) {
+	sc.CacheCap = []int{255, 256, 1000, 65535, 65535}[rng.Intn(5)]
+	sc.Clients = []Client{{Ops: []COp{{Op: "fill", Val: rng.Range(1, 600)}}}} // Val: how many keys beyond the capacity
+}
+
+func checkC14Huge(sc *Scenario) *CheckOut {
+	out := &CheckOut{Faults: map[string]int64{}, Nontrivial: true, Res: &RunResult{W: &World{}}}
+	cr := rux.NewCachedRoutes(sc.CacheCap)
+	extra := sc.Clients[0].Ops[0].Val
+	total := sc.CacheCap + extra
+	rt := rux.NewRoute("/v", c14Handler)
+	fail := func(format string, a ...any) {
+		if len(out.Viol) == 0 {
+			out.Viol = append(out.Viol, Violation{"C14", "capacity", fmt.Sprintf("capacity %d, %d distinct keys stored: ", sc.CacheCap, total) + fmt.Sprintf(format, a...), ""})
+		}
+	}
+	for i := 0; i < total; i++ {
+		cr.Set("GET/k/"+strconv.Itoa(i), rt)
+		if i%4096 == 0 || i >= total-3 {
+			if n := cr.Len(); n > sc.CacheCap {
+				fail("after %d stores the cache holds %d entries", i+1, n)
+				break
+			}
+		}
+	}
+	out.Requests = total
+	if n := cr.Len(); n != sc.CacheCap {
+		fail("the cache holds %d entries at the end", n)
+	}
+	keys, idx := cr.VerifKeys()
+	if idx != len(keys) {
+		fail("the index holds %d keys, the recency list %d", idx, len(keys))
+	}
+	if len(keys) > 0 && (keys[0] != "GET/k/"+strconv.Itoa(total-1) || keys[len(keys)-1] != "GET/k/"+strconv.Itoa(extra)) {
+		fail("most / least recent keys are %s / %s, an LRU map holds GET/k/%d / GET/k/%d", keys[0], keys[len(keys)-1], total-1, extra)
+	}
+	if cr.Has("GET/k/"+strconv.Itoa(extra-1)) || !cr.Has("GET/k/"+strconv.Itoa(extra)) {
+		fail("the oldest surviving key must be GET/k/%d", extra)
+	}
+	out.Faults["lru-eviction"] = int64(extra)
+	return out
+}
+
 func init() {
+	register(&Profile{Prop: "C14", Name: "lru-capacity-boundaries", Quick: 48, Thorough: 2000, Gen: genC14Huge, Check: checkC14Huge,
+		Rule: "every run fills a cache of 255, 256, 1000 or 65535 entries beyond its capacity with distinct keys"})
 	register(&Profile{Prop: "C14", Name: "router-concurrent", Quick: 9000, Thorough: 200000, Gen: genC14RouterConc, Check: checkC14Router,
 		Rule: "a history is non-trivial when at least one request resolved to a dynamic route on the caching router"})
 	register(&Profile{Prop: "C14", Name: "lru-sequential", Quick: 60000, Thorough: 1500000, Gen: genC14Ops(false), Check: checkC14Ops,
